@@ -1759,6 +1759,59 @@ def subbyte(repo):
     return res
 
 
+def verifyexit(repo):
+    """Attribute verifiers (attribute_checker functions that take `errors`) reach a verdict for every
+    object that carries the attribute: a bare `return` in the middle of one is either the
+    absent-attribute guard (`if not <local read with get_*attribute>`), or follows the report of an
+    error in the same block.  Any other early exit leaves a class of objects unverified."""
+    res = RuleResult("R-VERIFYEXIT")
+    m = repo.mod(ATTRIBUTE_CHECKER)
+    nfuncs = 0
+    for f in m.top_funcs():
+        if "errors" not in [a.arg for a in f.node.args.args]:
+            continue
+        nfuncs += 1
+        attr_locals = set()
+        for n in walk_no_nested_funcs(f.node):
+            if isinstance(n, ast.Assign) and isinstance(n.value, ast.Call) and len(n.targets) == 1 \
+                    and isinstance(n.targets[0], ast.Name) and re.search(r"get_\w*attribute$", call_name(n.value) or ""):
+                attr_locals.add(n.targets[0].id)
+        for r in walk_no_nested_funcs(f.node):
+            if not isinstance(r, ast.Return) or r.value is not None:
+                continue
+            par = m.parent(r)
+            blk = next((b for b in (getattr(par, "body", None), getattr(par, "orelse", None))
+                        if isinstance(b, list) and r in b), None)
+            if blk is None or (par is f.node and blk[-1] is r):
+                continue
+            res.instances += 1
+            i = blk.index(r)
+            if i > 0 and re.search(r"\berrors\.(append|extend)\(", ast.unparse(blk[i - 1])):
+                continue
+            t = par.test if isinstance(par, ast.If) and blk is par.body else None
+            absent = False
+            if t is not None:
+                if isinstance(t, ast.UnaryOp) and isinstance(t.op, ast.Not) and isinstance(t.operand, ast.Name) \
+                        and t.operand.id in attr_locals:
+                    absent = True
+                if isinstance(t, ast.Compare) and isinstance(t.left, ast.Name) and t.left.id in attr_locals \
+                        and len(t.ops) == 1 and isinstance(t.ops[0], ast.Is) and isinstance(t.comparators[0], ast.Constant) \
+                        and t.comparators[0].value is None:
+                    absent = True
+            if absent:
+                if len(res.samples) < 3:
+                    res.samples.append(f"{f.name}:{r.lineno}: absent-attribute guard")
+                continue
+            cond = ast.unparse(t) if t is not None else type(par).__name__
+            res.add(f"{m.rel}|{f.name}|{cond[:60]}", f"{f.name} leaves without a verdict under `{cond}`: the attribute is present "
+                    "but objects of that class are never verified (an invalid use is accepted and reaches later passes, "
+                    "which assert on it)", m.rel, r.lineno, f.name)
+    if nfuncs < 5:
+        raise AnalysisError(f"attribute_checker: only {nfuncs} verifier functions found")
+    res.analysed = [m.rel]
+    return res
+
+
 def attrkey(repo):
     """R-ATTRKEY (C14): "attributes only where ... allowed": the scope tables list pairs (name, is_default) -- `byte_order`
     may be *defaulted* on a module or struct, not written there plainly.  In attribute_util._check_attributes the decision
